@@ -779,3 +779,17 @@ Proof.
       destruct (k_run 0 _ r). cbn [snd] in *. constructor; auto. }
   apply G. reflexivity.
 Qed.
+
+(* ---------------------------------------------------------------- tie to the handshake model *)
+(* Model/Handshake.v (validated against the real Handshake::ack by engine "hs") computes the same value *)
+From MV Require Model.Handshake.
+Lemma ack_keepalive_is_handshake_model ka : ack_keepalive ka = Handshake.keepalive_of ka.
+Proof.
+  unfold ack_keepalive, Handshake.keepalive_of, sat_add16, Handshake.sat_add16, DEFAULT_KEEPALIVE,
+    Handshake.DEFAULT_KEEPALIVE, U16MAX, Handshake.U16MAX.
+  destruct (ka =? 0); [reflexivity|].
+  rewrite N.shiftr_div_pow2. change (2 ^ 1) with 2. set (h := ka / 2).
+  destruct (h + ka <=? 65535) eqn:E.
+  - apply N.leb_le in E. rewrite N.min_r by lia. reflexivity.
+  - apply N.leb_gt in E. rewrite N.min_l by lia. reflexivity.
+Qed.
